@@ -40,6 +40,13 @@ let seq_mode () =
       let v0 = if v0 = "-" then 0 else ios v0 in
       let _, outs = List.fold_left (fun (t, acc) tok ->
           if tok.[0] = 'a' then (tv_assign t (n_of_int (rest tok)), "ok" :: acc)
+          else if tok.[0] = 'A' then begin
+            (* A<n>:<start> : n assignments in a row, each by the model's tv_assign *)
+            let c = String.index tok ':' in
+            let n = ios (String.sub tok 1 (c - 1)) and st = ios (String.sub tok (c + 1) (String.length tok - c - 1)) in
+            let t = ref t in
+            for k = 0 to n - 1 do t := tv_assign !t (n_of_int (st + k)) done;
+            (!t, "ok" :: acc) end
           else if tok = "u" then (match tv_update t with
               | Some (t', b) -> (t', (if b then "true" else "false") :: acc)
               | None -> (t, "stale" :: acc))
@@ -51,8 +58,11 @@ let seq_mode () =
 
 let tracebuf_mode () =
   let hdr = words (input_line stdin) in
-  let np, npush = match hdr with ["TB"; a; b] -> ios a, ios b | _ -> failwith "bad header" in
-  let progs = List.init np (fun _ -> range_n 0 npush) in
+  let np, counts = match hdr with
+    | ["TB"; a; b] -> ios a, List.init (ios a) (fun _ -> ios b)
+    | "TBV" :: a :: cs -> ios a, List.map ios cs
+    | _ -> failwith "bad header" in
+  let progs = List.map (fun c -> range_n 0 c) counts in
   let rounds = ref [] and quiet = ref [] and complete = ref false and nel = ref 0 and nrounds = ref 0 in
   (try while true do
       match words (input_line stdin) with
